@@ -485,15 +485,17 @@ def run(ctx):
             st['pending'] = None
             cc, e, thr = script[st['idx']] if st['idx'] < len(script) else (1.0, 0.0, math.inf)
             if tau > thr:
-                rec.append((float(x[0]), float(tau), None, None))
+                rec.append((float(x[0]), float(tau), None, None, None if Fx is None else float(Fx[0]), None))
                 raise solvers.NoConvergenceError('newton', 0, x)
-            xnew = x + tau * cc
+            fxv = 0.5 if Fx is None else Fx
+            xnew = (x + tau * cc) + (fxv * tau) * 0.125
             xhat = xnew + e * tau
+            fnew = xnew * 0.5 + tau
             st['pending'] = xnew
-            rec.append((float(x[0]), float(tau), float(xnew[0]), float(xhat[0])))
+            rec.append((float(x[0]), float(tau), float(xnew[0]), float(xhat[0]), None if Fx is None else float(Fx[0]), float(fnew[0])))
             if len(rec) > 4000:
                 raise RuntimeError('scripted run does not terminate')
-            return xnew, xhat, None
+            return xnew, xhat, fnew
         meth = solvers._adaptive_step_method(stepper, q, None)
         tag, out = guarded(lambda: meth(None, None, None, np.array([x0]), tau0, tend, tol, t0=t0, step_factor=sf))
         sc = plist(script, lambda e: '%d %d %d' % (bits(e[0]), bits(e[1]), bits(e[2])))
@@ -501,6 +503,8 @@ def run(ctx):
             ('adapt', q, tol, sf, tau0, tend, t0, x0, script, tag, out, rec))
         ctx.case(('adapt', it), nontrivial=(len(rec) >= 3))
         ctx.count('adapt: stepper calls', len(rec)); ctx.count('adapt: newton failures', sum(1 for r_ in rec if r_[2] is None))
+
+    real_runs(ctx, solvers, T, add, guarded)
 
     got = ctx.model('drv_c12', req)
     ndis = 0
@@ -526,6 +530,209 @@ def run(ctx):
                 'mass None/dense/sparse SPD integer x dissipative/general/dyadic/stiff L (n<=4) x tau in 2^1..2^-9,0.1,0.37,0.003 x Fx none/F(x)/arbitrary; '
                 'newton: quadratic systems, maxiter 0..8, freeze 1..3; drivers: scripted steppers (failures, rejections, clamps, r==0). '
                 'non-trivial = s>=2 and n>=2 (steps), maxiter>=2, >=2 iterations / >=3 stepper calls (drivers); distinct by generated case')
+
+
+# ----------------------------------------------------------------------------- real (unscripted) runs
+class Recorder:
+    """records every dirk_step / rosenbrock_step call the exported drivers make (module-level lookup)"""
+    def __init__(self, solvers, fcount):
+        self.solvers = solvers; self.calls = []; self.fcount = fcount
+
+    def __enter__(self):
+        sv = self.solvers
+        self.od, self.orr = sv.dirk_step, sv.rosenbrock_step
+        def wd(A, M, F, J, x, tau, data=None, Fx=None):
+            rec = {'kind': 'dirk', 'A': np.array(A, dtype=float), 'x': np.array(x, dtype=float, copy=True), 'tau': float(tau),
+                   'Fx': None if Fx is None else np.array(Fx, dtype=float, copy=True), 'f0': self.fcount[0], 'data': data}
+            self.calls.append(rec)
+            try:
+                out = self.od(A, M, F, J, x, tau, data, Fx=Fx)
+            except sv.NoConvergenceError:
+                rec['out'] = None; rec['f1'] = self.fcount[0]; raise
+            rec['out'] = out; rec['f1'] = self.fcount[0]
+            return out
+        def wr(A, G, b, bh, M, F, J, x, tau, data, Fx=None):
+            rec = {'kind': 'ros', 'A': np.array(A, dtype=float), 'G': np.array(G, dtype=float), 'b': np.array(b, dtype=float),
+                   'bh': None if bh is None else np.array(bh, dtype=float), 'x': np.array(x, dtype=float, copy=True), 'tau': float(tau),
+                   'Fx': None if Fx is None else np.array(Fx, dtype=float, copy=True), 'f0': self.fcount[0], 'data': data}
+            self.calls.append(rec)
+            out = self.orr(A, G, b, bh, M, F, J, x, tau, data, Fx=Fx)
+            rec['out'] = out; rec['f1'] = self.fcount[0]
+            return out
+        sv.dirk_step, sv.rosenbrock_step = wd, wr
+        return self
+
+    def __exit__(self, *a):
+        self.solvers.dirk_step, self.solvers.rosenbrock_step = self.od, self.orr
+
+
+def fbl(v):
+    return plist([float(a) for a in np.asarray(v, dtype=float).ravel()], lambda z: str(bits(z)))
+
+
+def parse_bits(s_):
+    t = s_.split(); n = int(t[0])
+    return [struct.unpack('<d', struct.pack('<Q', int(z)))[0] for z in t[1:1 + n]]
+
+
+def ros_float_oracle(A, G, b, M, F, J, x, tau):
+    """Rosenbrock-Wanner step by definition in doubles with a fresh factorisation"""
+    s = len(b); gam = G[0, 0]; jac = J(x); C = M - tau * gam * jac
+    ks = []
+    for i in range(s):
+        y = x + tau * sum((A[i, j] * ks[j] for j in range(i)), np.zeros_like(x))
+        rhs = F(y) + tau * (jac @ sum((G[i, j] * ks[j] for j in range(i)), np.zeros_like(x)))
+        ks.append(np.linalg.solve(C, rhs))
+    return x + tau * sum((b[i] * ks[i] for i in range(s)), np.zeros_like(x))
+
+
+def dirk_tight_oracle(Afull, M, F, J, x, tau):
+    """DIRK step with the stage equations solved to 1e-13 (Newton in doubles)"""
+    s = Afull.shape[1]; Fs = []; Mx = M @ x
+    for i in range(s):
+        aii = Afull[i, i]
+        rhs = Mx + tau * sum((Afull[i, j] * Fs[j] for j in range(i)), np.zeros_like(x))
+        y = x.copy()
+        if aii != 0:
+            for _ in range(60):
+                r = M @ y - tau * aii * F(y) - rhs
+                if np.linalg.norm(r) < 1e-13 * (1 + np.linalg.norm(rhs)):
+                    break
+                y = y - np.linalg.solve(M - tau * aii * J(y), r)
+        Fs.append(F(y))
+    return np.linalg.solve(M, Mx + tau * sum((Afull[s, i] * Fs[i] for i in range(s)), np.zeros_like(x)))
+
+
+def real_runs(ctx, solvers, T, add, guarded):
+    """adaptive runs with a too-large initial step (rejections) and multi-step constant runs (shared `data`
+    dict) of the exported methods on linear and nonlinear systems; every recorded step call is replayed by
+    the model from the state and the Fx the driver *should* pass."""
+    import scipy.sparse
+    rng = ctx.rng
+    quick = ctx.tier == 'quick'
+    adaptive_names = ['sdirk21', 'dirk34', 'esdirk23', 'esdirk34'] + T.ROS
+    plan = []
+    for name in adaptive_names:
+        for nonlinear in (False, True):
+            for rep in range(1 if quick else 4):
+                plan.append((name, 'adaptive', nonlinear))
+    for name in T.DIRK + T.ROS:
+        for nonlinear in (False, True):
+            plan.append((name, 'constant', nonlinear))
+    for (name, mode, nonlinear) in plan:
+        n = int(rng.integers(1, 4))
+        M = spd_int(rng, n) if (name in T.ROS or rng.integers(0, 3) > 0) else np.eye(n)
+        S = rng.integers(-2, 3, size=(n, n)).astype(float); Kk = rng.integers(-1, 2, size=(n, n)).astype(float)
+        K = S @ S.T + np.eye(n) + (Kk - Kk.T)
+        g = rng.integers(-3, 4, size=n).astype(float)
+        d = (rng.integers(1, 3, size=n).astype(float) / 2) if nonlinear else np.zeros(n)
+        x0 = rng.integers(-2, 3, size=n).astype(float)
+        fcount = [0]
+        def F(y, K=K, d=d, g=g, fcount=fcount):
+            fcount[0] += 1
+            return -(K @ y) - d * y * y * y + g
+        sparse_ = (not nonlinear) and rng.integers(0, 2) == 0
+        if sparse_:
+            Js = scipy.sparse.csr_matrix(-K); J = lambda y, Js=Js: Js
+            Mobj = scipy.sparse.csr_matrix(M)
+        else:
+            J = lambda y, K=K, d=d: -K - 3 * np.diag(d * y * y)
+            Mobj = M
+        Jd = lambda y, K=K, d=d: -K - 3 * np.diag(d * y * y)
+        Fd = lambda y, K=K, d=d, g=g: -(K @ y) - d * y * y * y + g
+        meth = getattr(solvers, name)
+        if mode == 'adaptive':
+            tau0 = float(rng.choice([2.0, 4.0, 1.0])); t_end = float(rng.choice([0.5, 1.0])); tol = float(rng.choice([1e-3, 1e-4]))
+            call = lambda: meth(Mobj, F, J, x0.copy(), tau0, t_end, tol)
+        else:
+            tau0 = float(rng.choice([0.125, 0.25, 0.0625])); t_end = tau0 * int(rng.integers(3, 6)); tol = None
+            if name in ('crank_nicolson', 'sdirk3', 'sdirk3_b'):
+                call = lambda: meth(Mobj, F, J, x0.copy(), tau0, t_end)
+            else:
+                call = lambda: meth(Mobj, F, J, x0.copy(), tau0, t_end, None)
+        with Recorder(solvers, fcount) as R:
+            tag, out = guarded(call)
+        desc = {'method': name, 'mode': mode, 'nonlinear': nonlinear, 'M': M.tolist(), 'sparse': bool(sparse_), 'K': K.tolist(), 'd': d.tolist(),
+                'g': g.tolist(), 'x0': x0.tolist(), 'tau0': tau0, 't_end': t_end, 'tol': tol, 'F': 'F(y) = -K@y - d*y**3 + g, J(y) = -K - 3*diag(d*y**2)'}
+        ctx.case(('run', name, mode, nonlinear, str(desc)), nontrivial=True)
+        ctx.count('run:%s:%s' % (mode, 'nonlinear' if nonlinear else 'linear'))
+        if tag != 'ok':
+            ctx.violation('ode-run:' + name, '%s (%s run) raised %s' % (name, mode, tag), desc, True); continue
+        times, sols = out
+        calls = R.calls
+        if len(calls) > (60 if quick else 400):
+            calls = calls[:60 if quick else 400]
+        nrej = 0
+        curF = None
+        datas = set(id(c['data']) for c in R.calls)
+        if len(datas) != 1:
+            ctx.violation('ode-run:data-dict', '%s: the per-run `data` dict is not shared between the step calls' % name, desc, False)
+        for k, c in enumerate(calls):
+            o = c['out']
+            # accepted?  constant: always; adaptive: the next call starts from this x_new (or it is the last reported state)
+            if o is None:
+                accepted = False
+            elif mode == 'constant':
+                accepted = True
+            else:
+                nxt = R.calls[k + 1]['x'] if k + 1 < len(R.calls) else np.asarray(sols[-1], dtype=float)
+                accepted = np.array_equal(np.ravel(o[0]), np.ravel(nxt)) and not np.array_equal(np.ravel(o[0]), c['x'])
+            if o is not None and not accepted:
+                nrej += 1
+            # Fx the driver must pass: F_x_new of the last accepted step
+            fx_ok = (c['Fx'] is None and curF is None) or (c['Fx'] is not None and curF is not None and np.array_equal(c['Fx'], curF))
+            cdesc = dict(desc, call_index=k, x=c['x'].tolist(), tau=c['tau'], Fx_received=None if c['Fx'] is None else c['Fx'].tolist(),
+                         Fx_expected=None if curF is None else np.asarray(curF).tolist())
+            if not fx_ok:
+                # consequence on the stage equations (exact oracle for linear problems)
+                dev = None
+                if o is not None and c['kind'] == 'dirk':
+                    ref = dirk_tight_oracle(c['A'], M, Fd, Jd, c['x'], c['tau'])
+                    dev = float(np.max(np.abs(np.ravel(o[0]) - ref)))
+                ctx.violation('ode-run:Fx-threading:' + name,
+                              '%s (%s run): step call %d received an Fx that is not F at the current state (value of a rejected trial step)%s' % (
+                                  name, mode, k, '' if dev is None else '; x_new deviates from the solution of the stage equations by %.3e' % dev),
+                              cdesc, dev is not None and dev > 1e-8 * (1 + float(np.max(np.abs(c['x'])))))
+            if o is not None:
+                nf = c['f1'] - c['f0']
+                if not nonlinear:
+                    Ld = -K
+                    if c['kind'] == 'dirk':
+                        Afull = c['A']; s_ = Afull.shape[1]
+                        r = 'dirk %d %d %s %d %d %s %s %s %s %s %d%s' % (
+                            s_, Afull.shape[0], fvec(Afull), n, 1, fvec(M), fvec(Ld), fvec(g), fvec(c['x']), frac(c['tau']),
+                            0 if curF is None else 1, '' if curF is None else ' ' + fvec(curF))
+                        add(r, ('dirk', '%s [%s run, call %d]' % (name, mode, k), Afull, 1, M, Ld, g, c['x'], c['tau'],
+                                None if curF is None else np.asarray(curF, dtype=float), 'ok', o, nf))
+                    else:
+                        r = 'ros %d %s %s %s %d%s %d %s %s %s %s %s' % (
+                            len(c['b']), fvec(c['A']), fvec(c['G']), fvec(c['b']), 0 if c['bh'] is None else 1,
+                            '' if c['bh'] is None else ' ' + fvec(c['bh']), n, fvec(M), fvec(Ld), fvec(g), fvec(c['x']), frac(c['tau']))
+                        add(r, ('ros', '%s [%s run, call %d]' % (name, mode, k), c['A'], c['G'], c['b'], c['bh'], M, Ld, g, c['x'], c['tau'], 'ok', o))
+                else:
+                    if c['kind'] == 'dirk':
+                        Afull = c['A']; s_ = Afull.shape[1]
+                        r = 'dirkf %d %d %s %d %s %s %s %s %s %d %d%s' % (
+                            s_, Afull.shape[0], fbl(Afull), n, fbl(M), fbl(K), fbl(d), fbl(g), fbl(c['x']), bits(c['tau']),
+                            0 if curF is None else 1, '' if curF is None else ' ' + fbl(curF))
+                        add(r, ('dirkf', cdesc, Afull, M, Fd, Jd, c['x'], c['tau'], o, nf))
+                    else:
+                        r = 'rosf %d %s %s %s %d%s %d %s %s %s %s %s %d' % (
+                            len(c['b']), fbl(c['A']), fbl(c['G']), fbl(c['b']), 0 if c['bh'] is None else 1,
+                            '' if c['bh'] is None else ' ' + fbl(c['bh']), n, fbl(M), fbl(K), fbl(d), fbl(g), fbl(c['x']), bits(c['tau']))
+                        add(r, ('rosf', cdesc, c['A'], c['G'], c['b'], c['bh'], M, Fd, Jd, c['x'], c['tau'], o))
+                ctx.count('run step calls replayed by the model')
+            if accepted:
+                curF = o[-1]
+        ctx.count('run: rejected steps', nrej)
+        if mode == 'adaptive':
+            ctx.count('adaptive runs with >=1 rejection', 1 if nrej else 0)
+            if not all(b_ > a_ for a_, b_ in zip(times, times[1:])) or not times[-1] >= t_end or len(times) != len(sols):
+                ctx.violation('ode-run:' + name, '%s adaptive run: times not strictly increasing up to t_end' % name, dict(desc, times=list(times)[:40]), True)
+        else:
+            nst = int(math.ceil(t_end / tau0))
+            if list(times) != [k * tau0 for k in range(nst + 1)] or len(sols) != nst + 1:
+                ctx.violation('ode-run:' + name, '%s constant run: times %s' % (name, list(times)[:8]), desc, True)
 
 
 def compare(ctx, solvers, r, g, m, tabs):
@@ -647,6 +854,54 @@ def compare(ctx, solvers, r, g, m, tabs):
             return None
         v = oracle_verdict()
         return ('ode-corr:ros', 'rosenbrock_step disagrees with the model on: ' + ', '.join(problems) + ('; ' + v if v else ''), replay_ros(m), v is not None)
+    if op == 'rosf':
+        _, cdesc, A, G, b, bh, M, Fd, Jd, x, tau, out = m
+        parts = g[3:].split(' | ')
+        xm = np.array(parse_bits(parts[0]))
+        scale = 1 + np.max(np.abs(x)) + np.max(np.abs(xm))
+        xi = np.ravel(out[0])
+        problems = []
+        if not (np.all(np.isfinite(xi)) and np.max(np.abs(xi - xm)) <= 1e-8 * scale):
+            problems.append('x_new (max difference %.3e)' % float(np.max(np.abs(xi - xm))))
+        if bh is not None and parts[1].strip() != '-':
+            xe = np.array(parse_bits(parts[1]))
+            if len(out) != 3 or not np.max(np.abs(np.ravel(out[1]) - xe)) <= 1e-8 * scale:
+                problems.append('x_est')
+        if not problems:
+            return None
+        ref = ros_float_oracle(A, G, b, M, Fd, Jd, x, tau)
+        dev = float(np.max(np.abs(xi - ref)))
+        v = 'x_new differs from the Rosenbrock-Wanner step with the matrix M - tau*gamma*J(x) of *this* step by %.3e (rel. %.2e)' % (dev, dev / scale) if dev > 1e-8 * scale else None
+        return ('ode-corr:rosf', 'rosenbrock_step inside %s disagrees with the model on: %s' % (cdesc['method'], ', '.join(problems)) + ('; ' + v if v else ''),
+                dict(cdesc, implementation_x_new=xi.tolist(), model_x_new=xm.tolist()), v is not None)
+    if op == 'dirkf':
+        _, cdesc, Afull, M, Fd, Jd, x, tau, out, nf = m
+        if not g.startswith('ok'):
+            return ('ode-corr:dirkf', 'dirk_step inside %s returned, the model says %s' % (cdesc['method'], g), cdesc, False)
+        parts = g[3:].split(' | ')
+        xm = np.array(parse_bits(parts[0]))
+        scale = 1 + np.max(np.abs(x)) + np.max(np.abs(xm))
+        xi = np.ravel(out[0])
+        problems = []
+        if not (np.all(np.isfinite(xi)) and np.max(np.abs(xi - xm)) <= 1e-8 * scale):
+            problems.append('x_new (max difference %.3e)' % float(np.max(np.abs(xi - xm))))
+        if len(out) == 3 and parts[1].strip() != '-':
+            xe = np.array(parse_bits(parts[1]))
+            if not np.max(np.abs(np.ravel(out[1]) - xe)) <= 1e-8 * scale:
+                problems.append('x_est')
+        if (out[-1] is None) != (parts[2].strip() == '-'):
+            problems.append('F_x_new presence')
+        if int(parts[3]) != nf:
+            problems.append('number of F evaluations (impl %d, model %d)' % (nf, int(parts[3])))
+        if not problems:
+            return None
+        ref = dirk_tight_oracle(Afull, M, Fd, Jd, x, tau)
+        dev = float(np.max(np.abs(xi - ref)))
+        s_ = Afull.shape[1]
+        bound = 100 * s_ * 1e-4 * max(1.0, float(np.linalg.norm(np.linalg.inv(M), 2)))      # Newton's absolute tolerance, amplified
+        v = 'x_new differs from the tightly solved stage equations by %.3e, more than Newton\'s tolerance allows (%.1e)' % (dev, bound) if dev > bound else None
+        return ('ode-corr:dirkf', 'dirk_step inside %s disagrees with the model on: %s' % (cdesc['method'], ', '.join(problems)) + ('; ' + v if v else ''),
+                dict(cdesc, implementation_x_new=xi.tolist(), model_x_new=xm.tolist()), v is not None)
     if op == 'newton':
         _, Q, dq, c, x0, atol, rtol, maxiter, freeze, tag, out, ncalls, njac = m
         if g == 'err-singular':
@@ -732,7 +987,12 @@ def compare(ctx, solvers, r, g, m, tabs):
             v = 'last time %r < t_end %r' % (times[-1], tend)
         else:
             acc = 0
-            for i, (xv, tv, xn, xh) in enumerate(rec):
+            curF = None         # F_x_new of the last accepted step: what the stepper must receive as Fx
+            for i, (xv, tv, xn, xh, fin, fout) in enumerate(rec):
+                if fin != curF:
+                    v = 'stepper call %d received Fx=%r although the F value belonging to the current state is %r (Fx of a rejected trial step passed on)' % (i, fin, curF); break
+                if xn is not None and ((i + 1 < len(rec) and rec[i + 1][0] == xn) or (i + 1 == len(rec) and float(np.ravel(out[1][-1])[0]) == xn)):
+                    curF = fout
                 if tv <= 0:
                     v = 'non-positive step size %r' % tv; break
                 if i + 1 < len(rec):
@@ -750,7 +1010,7 @@ def compare(ctx, solvers, r, g, m, tabs):
         return ('ode-corr:adapt', 'adaptive driver disagrees with the model (times/solutions bit patterns)' + ('; ' + v if v else ''),
                 {'err_order': q, 'tol': tol, 'step_factor': sf, 'tau0': tau0, 't_end': tend, 't0': t0, 'x0': x0,
                  'script(c,e,thr)': script, 'implementation_times': [float(t) for t in out[0]][:50],
-                 'stepper_calls(x,tau,xnew,xhat)': rec[:50]}, v is not None)
+                 'stepper_calls(x,tau,xnew,xhat,Fx_received,Fxnew)': rec[:50]}, v is not None)
     return None
 
 
